@@ -3429,3 +3429,210 @@ def c16_new_pop_events(K):
                         out.append(prove_eq('%s.proportion%d' % (tag, pos + 1), list(paths[0].pc), a[1 + pos], want, fn2))
         return out
     return go()
+
+
+# ---------------------------------------------------------------- C17: 2-D DFE quadrature with edge and corner tails
+def c17_integrate_2d(symmetric):
+    """Cache2D.integrate on a cache of 2 x 2 negative gammas (g_0 < g_1 < 0 the cached values, so -g_0 is the most deleterious and -g_1 the most
+    nearly neutral), spectra s[i][j] symbolic, the bivariate density pdf(gamma1, gamma2) uninterpreted, scipy.integrate.quad / dblquad by their documented
+    meaning (quad integrates the FIRST argument of its integrand; dblquad(f, a, b, g, h) integrates f(y, x) for x in [a,b], y in [g(x),h(x)]):
+      fs/theta = trapz_i trapz_j pdf(-g_i,-g_j) s[i][j]
+               + trapz_i s[i][0]  * int_{-g_0}^{inf} pdf(-g_i, y) dy    + trapz_i s[i][-1] * int_0^{-g_1} pdf(-g_i, y) dy        (gamma2 out of range)
+               + trapz_j s[0][j]  * int_{-g_0}^{inf} pdf(x, -g_j) dx    + trapz_j s[-1][j] * int_0^{-g_1} pdf(x, -g_j) dx        (gamma1 out of range)
+               + s[-1][-1] * II(g1 in [0,-g_1], g2 in [0,-g_1]) + s[0][-1] * II(g1 in [-g_0,inf], g2 in [0,-g_1]) + s[-1][0] * II(g1 in [0,-g_1], g2 in [-g_0,inf])
+    (a symmetric density may reuse the gamma1 marginals for gamma2 and the (0,-1) corner weight for the (-1,0) corner);  exterior_int=False keeps only the first line."""
+    oid = 'C17/Cache2D_mod.py:Cache2D.integrate/%s' % ('symmetric' if symmetric else 'asymmetric')
+    fn = 'dadi/DFE/Cache2D_mod.py::Cache2D.integrate'
+
+    @guarded(oid, fn)
+    def go():
+        out = []
+        g = reals('g', 2)
+        hy = [g[0] < g[1], g[1] < 0]
+        s_ = [[z3.Real('s%d%d' % (i, j)) for j in range(2)] for i in range(2)]
+        pdf = uf('pdf', 2)
+        theta = z3.Real('theta')
+        params = VList(reals('dfe_param', 2))
+        for ext in (True, False):
+            me = Tm('self')
+            ng = VList(list(g), 'ndarray')
+            spectra = VList([VList([VList([VList([s_[i][j]], 'ndarray')], 'ndarray') for j in range(2)], 'ndarray') for i in range(2)], 'ndarray')
+            me.attrs.update(neg_gammas=ng, spectra=spectra)
+            integrals = {}
+
+            def sel(x, y, p):
+                x, y = exact(x), exact(y)
+                if isinstance(x, VList) and isinstance(y, VList):
+                    return VList([VList([pdf(to_real(a), to_real(b)) for b in y.items], 'ndarray') for a in x.items], 'ndarray')
+                if is_scalar(x) and is_scalar(y):
+                    return pdf(to_real(x), to_real(y))
+                t = Tm('pdf_on_test_grid')
+                t.attrs['T'] = Tm('pdf_on_test_grid.T')
+                return t
+            sel_dist = PyFn(sel, 'sel_dist')
+
+            def ah(ex_, fref, a, kw, ctx):
+                nm = vrepr(fref)
+                if 'allclose' in nm:
+                    return symmetric
+                if 'logspace' in nm:
+                    return Tm('testx')
+                if nm.endswith('Spectrum)') or 'Spectrum_mod.Spectrum' in nm or (isinstance(fref, ClassRef) and fref.node.name == 'Spectrum'):
+                    return a[0]
+                if 'dblquad' in nm:
+                    f_, lo, hi, gf, hf = a[:5]
+                    extra = kw.get('args')
+                    x = z3.Real('x_outer')
+                    y = z3.Real('y_inner')
+                    val = ex_.call(f_, [y, x] + (list(ex_.iterate(extra)) if extra is not None else []), {})
+                    glo, ghi = ex_.call(gf, [x], {}), ex_.call(hf, [x], {})
+                    key = ('dbl', z3.simplify(to_real(exact(val))).sexpr() if is_scalar(exact(val)) else vrepr(val), vrepr(lo), vrepr(hi), vrepr(glo), vrepr(ghi))
+                    W = z3.Real('DQ%d' % len(integrals))
+                    integrals[W.decl().name()] = key
+                    t = Tm('dblquad-result')
+                    t.attrs['__items__'] = [W, Tm('err')]
+                    t.attrs['__len__'] = 2
+                    return t
+                if 'quad' in nm:
+                    f_, lo, hi = a[:3]
+                    extra = kw.get('args')
+                    tvar = z3.Real('t_int')
+                    val = ex_.call(f_, [tvar] + (list(extra) if isinstance(extra, tuple) else (list(ex_.iterate(extra)) if extra is not None else [])), {})
+                    key = ('quad', z3.simplify(to_real(exact(val))).sexpr() if is_scalar(exact(val)) else vrepr(val), vrepr(lo), vrepr(hi))
+                    W = z3.Real('Q%d' % len(integrals))
+                    integrals[W.decl().name()] = key
+                    t = Tm('quad-result')
+                    t.attrs['__items__'] = [W, Tm('err')]
+                    t.attrs['__len__'] = 2
+                    return t
+                return NotImplemented
+            ex = Executor()
+            ex.abstract_hook = ah
+            f = ex.func('dadi/DFE/Cache2D_mod.py', 'Cache2D.integrate')
+            paths = ex.run(f, [me, params, None, sel_dist, theta, None], dict(exterior_int=ext), base_pc=hy)
+            tag = '%s.%s' % (oid, 'with-tails' if ext else 'interior-only')
+            if len(paths) != 1 or paths[0].outcome != 'return':
+                out.append(struct(tag, False, 'expected one returning path: %r' % paths[:2], fn, undecided=True))
+                continue
+            v = paths[0].value
+            try:
+                got = to_real(exact(v.items[0].items[0]))
+            except Exception:
+                out.append(struct(tag, False, 'result is not a (1 x 1) spectrum: %s' % vrepr(v)[:200], fn, undecided=True))
+                continue
+            pc = hy + list(paths[0].pc)
+            # --- spec
+            w = _trapz_weights(g)
+            interior = sum((w[i] * w[j] * pdf(-g[i], -g[j]) * s_[i][j] for i in range(2) for j in range(2)), z3.RealVal(0))
+            if not ext:
+                out.append(prove_eq(tag, pc, got, theta * interior, fn))
+                continue
+            tq, xo, yi = z3.Real('t_int'), z3.Real('x_outer'), z3.Real('y_inner')
+            sx = lambda e: z3.simplify(e).sexpr()
+            mn, mx = vrepr(-g[0]), vrepr(-g[1])
+            inf = 'float:inf'
+
+            def find(key):
+                hits = [n_ for n_, k_ in integrals.items() if k_ == key]
+                return z3.Real(hits[0]) if hits else None
+            missing = []
+
+            def need(key, what):
+                r = find(key)
+                if r is None:
+                    missing.append(what)
+                    return z3.Real('MISSING_' + what)
+                return r
+            spec = interior
+            for i in range(2):
+                g2low = ('quad', sx(pdf(-g[i], tq)), mn, inf)
+                g2high = ('quad', sx(pdf(-g[i], tq)), '0', mx)
+                g1low = ('quad', sx(pdf(tq, -g[i])), mn, inf)
+                g1high = ('quad', sx(pdf(tq, -g[i])), '0', mx)
+                if symmetric:
+                    # allowed shortcut: the gamma1 marginals stand in for the gamma2 marginals
+                    W2l = find(g2low) or need(g1low, 'marginal over gamma1 [min,inf] at %d' % i)
+                    W2h = find(g2high) or need(g1high, 'marginal over gamma1 [0,max] at %d' % i)
+                else:
+                    W2l = need(g2low, 'int_{min}^{inf} pdf(-g_%d, y) dy' % i)
+                    W2h = need(g2high, 'int_0^{max} pdf(-g_%d, y) dy' % i)
+                W1l = need(g1low, 'int_{min}^{inf} pdf(x, -g_%d) dx' % i)
+                W1h = need(g1high, 'int_0^{max} pdf(x, -g_%d) dx' % i)
+                spec = spec + w[i] * (s_[i][0] * W2l + s_[i][1] * W2h + s_[0][i] * W1l + s_[1][i] * W1h)
+            f_yx = sx(pdf(yi, xo))
+            nn = need(('dbl', f_yx, '0', mx, '0', mx), 'II both neutral')
+            dn = need(('dbl', f_yx, '0', mx, mn, inf), 'II gamma1 deleterious, gamma2 neutral')
+            if symmetric:
+                nd = find(('dbl', f_yx, mn, inf, '0', mx)) or dn
+            else:
+                nd = need(('dbl', f_yx, mn, inf, '0', mx), 'II gamma1 neutral, gamma2 deleterious')
+            spec = spec + s_[1][1] * nn + s_[0][1] * dn + s_[1][0] * nd
+            out.append(struct(tag + '.integrals', not missing, 'every tail integral is requested with the documented integrand and range' if not missing else 'not requested: %s; requested: %s' % (missing, sorted(integrals.values())[:6]), fn))
+            out.append(prove_eq(tag + '.assembly', pc, got, theta * spec, fn))
+        return out
+    return go()
+
+
+def c18_no_call(nseq):
+    """LowPass.probability_of_no_call_1D_GATK_multisample for nseq haplotypes, depths 0..2 with symbolic probabilities p_d >= 0 summing to one,
+    genotype partitions and their probabilities by contract of partitions_and_probabilities (the exhaustive partitions of nseq/2 diploids; symbolic
+    probabilities).  With H = sum_d p_d 2^-d and D = sum_d d p_d 2^-d, a partition with a hom-alt and t het individuals contributes
+         p_0^a H^t  +  a p_1 p_0^(a-1) H^t  +  p_0^a t H^(t-1) D        (terms with a = 0 resp. t = 0 absent),
+    and -- definedness -- no division by a quantity that can be zero for an admissible coverage distribution (p_0 = 0 is admissible: deep coverage)."""
+    oid = 'C18/LowPass.py:probability_of_no_call_1D_GATK_multisample/nseq%d' % nseq
+    fn = 'dadi/LowPass/LowPass.py::probability_of_no_call_1D_GATK_multisample'
+
+    @guarded(oid, fn)
+    def go():
+        nind = nseq // 2
+        p = reals('p', 3)
+        hy = [x >= 0 for x in p] + [p[0] + p[1] + p[2] == 1]
+        parts = []
+        for af in range(nseq + 1):
+            ps = [list(c) for c in itertools.combinations_with_replacement((0, 1, 2), nind) if sum(c) == af]
+            parts.append(ps)
+        probs = [[z3.Real('w%d_%d' % (af, k)) for k in range(len(parts[af]))] for af in range(nseq + 1)]
+
+        def pol(fr):
+            if fr.qualname == 'partitions_and_probabilities':
+                return lambda ex_, f_, a, kw: (VList([VList([VList(list(c)) for c in ps]) for ps in parts]), VList([VList(list(w), 'ndarray') for w in probs]))
+            return 'inline' if fr.qualname == 'probability_of_no_call_1D_GATK_multisample' else 'abstract'
+        ex = Executor(policy=pol)
+        f = ex.func('dadi/LowPass/LowPass.py', 'probability_of_no_call_1D_GATK_multisample')
+        cd = VList([VList([0, 1, 2], 'ndarray'), VList(list(p), 'ndarray')], 'ndarray')
+        paths = ex.run(f, [cd, nseq, z3.Real('Fx')], {}, base_pc=hy)
+        if len(paths) != 1 or paths[0].outcome != 'return':
+            return [struct(oid, False, 'expected one returning path: %r' % paths[:2], fn, undecided=True)]
+        res = ex.iterate(paths[0].value)
+        pc = hy + list(paths[0].pc)
+        out = [struct(oid + '.length', len(res) == nseq + 1, 'nseq+1 entries', fn)]
+        H = p[0] + p[1] / 2 + p[2] / 4
+        D = p[1] / 2 + 2 * p[2] / 4
+        for af in range(min(nseq + 1, len(res))):
+            want = z3.RealVal(0)
+            for c, w in zip(parts[af], probs[af]):
+                a, t = c.count(2), c.count(1)
+                term = _pw(p[0], a) * _pw(H, t)
+                if a > 0:
+                    term = term + a * p[1] * _pw(p[0], a - 1) * _pw(H, t)
+                if t > 0:
+                    term = term + _pw(p[0], a) * t * _pw(H, t - 1) * D
+                want = want + w * term
+            out.append(prove_eq('%s.entry%d' % (oid, af), pc + [H > 0], res[af], want, fn))
+        divisors = []
+        for e in paths[0].log:
+            if e[0] == 'div' and not any(e[1].eq(d) for d in divisors):
+                divisors.append(e[1])
+
+        def replay(model):
+            import numpy
+            from dadi.LowPass import LowPass
+            pv = [float(Fraction(str(model.get('p%d' % i, 0)))) for i in range(3)]
+            r = LowPass.probability_of_no_call_1D_GATK_multisample(numpy.array([[0, 1, 2], pv]), nseq, 0)
+            bad = bool(numpy.any(~numpy.isfinite(numpy.asarray(r, dtype=float))))
+            return dict(replayed=True, postcondition_holds_natively=not bad, input=dict(coverage_probabilities=pv, n_sequenced=nseq, Fx=0), got=[float(x) for x in r])
+        for k, dv in enumerate(divisors):
+            out.append(prove('%s.defined.divisor%d' % (oid, k), pc, dv != 0, fn, replay=replay))
+        out.append(struct(oid + '.defined.count', True, '%d distinct symbolic divisors, each shown non-zero for every admissible coverage distribution' % len(divisors), fn))
+        return out
+    return go()
